@@ -40,6 +40,10 @@ MAP = [
     ("V:cli:", "cli_pipeline"),
     ("V:state:as_svg_uses:", "svg_places"),
     ("V:geom:as_svg_matrix_args:", "svg_places"),
+    ("V:geom:fo_char:", "parse_grammar"),
+    ("V:geom:from_operations:", "parse_grammar"),
+    ("V:geom:lemma_row:", "parse_grammar"),
+    ("V:geom:lemma_component:", "parse_grammar"),
 ]
 
 
